@@ -332,6 +332,13 @@ HCancel(s0, a, cmd) ==
     [] s.kind[a] = "SendingConsts" ->
          IF s.ctask[a].st = "done" THEN CancelNotify(s, a, cmd)
          ELSE IF s.ctask[a].st = "failed" THEN Break(Answer(s, a, cmd, FALSE), a)   \* ClientNotAvailable
+         ELSE IF FIX.cancelAbortsConstsTask
+           \* repaired: the sending task is aborted (its parked calls and a parked
+           \* error notification die with it) and a new client sends the notice
+           THEN CancelNotify([s EXCEPT !.ctask[a] = [st |-> "aborted", pend |-> {}],
+                                      !.rpc = { r \in @ : ~(r.c = a[1] /\ r.from = a[2] /\ r.st = "parked" /\ r.k = "consts") },
+                                      !.outq[a] = SelectSeq(@, LAMBDA o : o.by # "ctask")], a, cmd)
+         \* pinned: the handler waits for the task to hand back its client
          ELSE [s EXCEPT !.hpc[a] = [pc |-> "cancel_client_wait", pend |-> {}]]
     [] s.kind[a] \in {"AwaitingValidation", "Validated", "SendingConstsCompleted", "Running"} ->
          CancelNotify(s, a, cmd)
